@@ -4,7 +4,7 @@
 From Coq Require Import List NArith ZArith Bool Arith Lia.
 Import ListNotations.
 Require Import Aurora.Consts Aurora.Base.Corr Aurora.C03.Ref Aurora.C03.Model Aurora.C03.Final Aurora.C03.Term
-               Aurora.C03.Toy Aurora.C04.Model Aurora.C04.Proofs.
+               Aurora.C03.Toy Aurora.C04.Model Aurora.C04.Proofs Aurora.C04.PoolDiscipline.
 
 (** boson.ChunkSize is the capacity of bmtpool's trees (D = 12), the span is 8 bytes *)
 Definition realD : nat := 12.
@@ -94,6 +94,37 @@ Proof.
     destruct extra; [contradiction | cbn [length] in L; lia].
 Qed.
 Print Assumptions C04_overlong.
+
+(** the caller's obligation towards the pool, for ALL interleavings of any number of goroutines
+    running cac.hasher ([Get; SetHeader; Write; Hash; Put]) over a pool of any capacity: no
+    goroutine ever touches a tree it does not own, no tree returns to the pool while its section
+    goroutines may still run (Put only after Hash has returned), the pool channel never holds a
+    tree twice, every idle tree's access log consists of complete uses by one caller each, and
+    every goroutine in the middle of its use is the owner of its tree with only its own partial
+    use on top of such a log ([caller_ok]).  This is what makes each use a run of the C03
+    single-hasher system ([C03_concurrent_users], [C04_pool_hasher_ok]). *)
+Theorem C04_pool_discipline : forall cap sched,
+  let st := PoolDiscipline.run (PoolDiscipline.init cac_hasher_prog cap) sched in
+  bad_access st = false /\ bad_put st = false /\
+  (NoDup (free st) /\ forall t, In t (free st) -> own (ts st t) = None) /\
+  (forall t, own (ts st t) = None -> dirty (ts st t) = false /\ wf_done (tlog (ts st t))) /\
+  (forall c, caller_ok st c).
+Proof.
+  intros cap sched st.
+  destruct (PoolDiscipline.run_inv sched _ (PoolDiscipline.init_inv cap)) as [[F1 F2] Fr Idle Call].
+  split; [exact F1|]. split; [exact F2|]. split; [exact Fr|]. split; [exact Idle | exact Call].
+Qed.
+Print Assumptions C04_pool_discipline.
+
+(** the obligation is not vacuous: with the Put moved before Hash, two goroutines and one tree,
+    a schedule puts a dirty tree back, lets the second goroutine write into it, and has the first
+    one hash a tree it no longer owns *)
+Theorem C04_pool_discipline_tight :
+  let st := PoolDiscipline.run (PoolDiscipline.init early_put_prog 1) [0; 0; 0; 0; 1; 1; 1; 0] in
+  bad_put st = true /\ bad_access st = true /\
+  tlog (ts st 0) = [(0, AHash); (1, AWrite); (1, ASetHeader); (0, AWrite); (0, ASetHeader)].
+Proof. exact early_put_breaks. Qed.
+Print Assumptions C04_pool_discipline_tight.
 
 (** non-vacuity: with a concrete hash and a tiny tree the hypotheses are met and the functions compute *)
 Example C04_hyps_satisfiable :
